@@ -17,6 +17,25 @@ def pixelscale [Div K] (px s : K) : K := px / s
 /-- `Plane.resample(new)`: `rescale(scale = pixelscale[0] / new)` -/
 def resampleScale [Div K] (px new : K) : K := px / new
 
+/-- `Plane.rescale`'s own bookkeeping (everything except the interpolation):
+* `plane._pixelscale = (px[0]/scale, px[1]/scale)` when a pixel scale is set, else left `None`;
+* the amplitude is interpolated **and divided by `scale`** only when it is an array (`amplitude.ndim > 1`), the OPD is
+  interpolated only when it is an array; scalars pass through unchanged. -/
+def planePixelscale [Div K] (px : Option (K × K)) (s : K) : Option (K × K) := px.map fun p => (p.1 / s, p.2 / s)
+def amplitudeFactor [One K] [Div K] (ampNdim : Nat) (s : K) : K := if ampNdim > 1 then 1 / s else 1
+def interpolated (ndim : Nat) : Bool := decide (ndim > 1)
+
+/-- outcome of `Plane.resample(new)`: refuses a plane without pixel scale (`ValueError`) and a non-uniformly sampled one
+(`NotImplementedError`); otherwise rescales by `pixelscale[0] / new` -/
+inductive Resample (K : Type) where
+  | valueError | notImplemented | scale (s : K)
+deriving Repr
+
+def resample [Div K] [DecidableEq K] (px : Option (K × K)) (new : K) : Resample K :=
+  match px with
+  | none => .valueError
+  | some p => if p.1 = p.2 then .scale (resampleScale p.1 new) else .notImplemented
+
 /-- `mask[np.nonzero(mask)] = 1; mask.astype(int)` -/
 def binarise [Zero K] [DecidableEq K] (x : K) : Int := if x = 0 then 0 else 1
 
